@@ -1,8 +1,9 @@
 #!/bin/bash
 # seeds.sh [id...] : sensitivity regression — re-runs every kept seeded change
 # (or the named ones) against the checks recorded as catching it, and writes
-# seeded/RESULTS.md. A seed counts as caught if at least one check exits 1.
-cd /verif
+# seeded/RESULTS.md. VERIF_HOME=<copy of /verif> runs it from a snapshot. A seed counts as caught if at least one check exits 1.
+H=${VERIF_HOME:-/verif}
+cd $H
 ids="$@"; [ -z "$ids" ] && ids=$(ls seeded | grep -v RESULTS)
 out=seeded/RESULTS.md
 echo "# Seeded-change regression ($(date -u +%Y-%m-%dT%H:%MZ), /verif @ $(git rev-parse --short HEAD))" > $out.tmp
@@ -13,7 +14,7 @@ for id in $ids; do
 import json
 m=json.load(open('seeded/$id/meta.json'))
 print(' '.join(sorted(set(c.split()[0] for c in m['caught_by']))))")
-  res=$(tools/tryseed.sh /verif/seeded/$id reg$id $checks 2>&1)
+  res=$(tools/tryseed.sh $H/seeded/$id reg$id $checks 2>&1)
   ok=$(echo "$res" | grep -c "(ok)")
   caught=$(echo "$res" | grep "^check" | grep -c "exit=1")
   line=$(echo "$res" | grep "^check" | sed 's/violation class=//' | cut -c1-110 | tr '\n' ';' | tr '|' '/')
